@@ -77,8 +77,49 @@ def _worker(unit):
         res = _MOD.run_unit(unit, _CTX)
         res["_wall"] = time.time() - t0
         return res
-    except BaseException:  # a harness bug, never a verdict
+    except BaseException as e:
+        v = crash_violation(e, unit, _MOD, _CTX)
+        if v is not None:
+            return {"evaluations": 0, "nontrivial": 0, "violations": [v], "samples": [],
+                    "outcomes": {"exception-escaped-from-code-under-test": 1}, "counters": {}}
+        # a harness bug, never a verdict
         return {"_crash": traceback.format_exc(), "_unit": repr(unit)[:300]}
+
+
+def crash_violation(e, unit, mod, ctx):
+    """An exception that escaped from the package under test into a check that does not expect one at that
+    point (every check passes on the unchanged tree, so the change under test made it escape): a violation
+    with the work unit as its replayable case.  Exceptions with no frame inside the package stay harness errors."""
+    if isinstance(e, (KeyboardInterrupt, SystemExit, MemoryError)):
+        return None
+    pkg = os.path.join(ctx.repo, "jsonschema") + os.sep
+    tb = traceback.extract_tb(e.__traceback__)
+    inside = [fr for fr in tb if os.path.realpath(fr.filename).startswith(pkg)]
+    if not inside:
+        return None
+    try:
+        json.dumps(unit)
+    except Exception:
+        return None
+    return {"signature": "%s|exception-escaped-into-the-check|%s|%s" % (mod.ID, type(e).__name__, inside[-1].name),
+            "size": 0, "case": {"crashed_unit": unit, "tier": ctx.tier},
+            "detail": {"exception": "%s: %s" % (type(e).__name__, str(e)[:200]),
+                       "innermost_frames": ["%s:%d %s" % (os.path.basename(fr.filename), fr.lineno, fr.name) for fr in tb[-6:]]}}
+
+
+def as_tuples(x):
+    return tuple(as_tuples(e) for e in x) if isinstance(x, list) else x
+
+
+def replay_crashed_unit(mod, ctx, case):
+    """Re-run the work unit named by a crash violation; reproduced iff an exception escapes again."""
+    ctx.tier = case.get("tier", ctx.tier)
+    try:
+        mod.plan(ctx)
+        mod.run_unit(as_tuples(case["crashed_unit"]), ctx)
+    except BaseException as e:
+        return {"reproduced": True, "exception": "%s: %s" % (type(e).__name__, str(e)[:200])}
+    return {"reproduced": False}
 
 
 def _init_worker():
@@ -97,7 +138,22 @@ def run_check(mod, ctx):
     global _MOD, _CTX
     _MOD, _CTX = mod, ctx
     t0 = time.time()
-    plan = mod.plan(ctx)
+    try:
+        plan = mod.plan(ctx)
+    except BaseException as e:
+        v = crash_violation(e, "plan", mod, ctx)
+        if v is None:
+            raise
+        vdir = os.path.join(os.environ.get("VERIF_VIOLATIONS_DIR") or os.path.join(VERIF, "violations"), mod.ID)
+        os.makedirs(vdir, exist_ok=True)
+        path = os.path.join(vdir, digest([v["signature"], "plan"]) + ".json")
+        with open(path, "w") as f:
+            f.write(jdump({"property": mod.ID, "signature": v["signature"], "case": v["case"], "detail": v["detail"],
+                           "tier": ctx.tier, "seed": ctx.seed}, indent=1))
+        print("VIOLATION property=%s replay=%s" % (mod.ID, path))
+        print("  signature=%s (while enumerating the cases)" % v["signature"])
+        print("  detail=%s" % jdump(v["detail"])[:600])
+        return 1
     t_plan = time.time() - t0
     units = list(plan["units"])
     # VERIF_SEED only rotates the order in which units are handed out and
